@@ -977,10 +977,26 @@ impl Indexable for ast::SimpleValue {
             ast::SimpleValue::Boolean(_) => Some(Type::Bit),
             ast::SimpleValue::Uninitialized(_) => Some(Type::Uninitialized),
             ast::SimpleValue::Bits(bits) => {
+                // the width of `{a, b, …}` is the sum of the widths of its elements: a value of
+                // type bits<n> contributes n bits (`{op, 0}` with bits<7> op is a bits<8>), a
+                // binary literal its digits, anything else one bit
+                let mut width = Some(0usize);
                 for value in bits.value_list()?.values() {
-                    value.index(ctx);
+                    let text = value.syntax().text().to_string();
+                    let element_width = match value.index(ctx) {
+                        Some(Type::Bits(n)) => Some(n),
+                        Some(Type::Int) => match text.trim().strip_prefix("0b") {
+                            Some(digits) => Some(digits.len()),
+                            None => Some(1),
+                        },
+                        Some(Type::Unknown) | None => None,
+                        Some(_) => Some(1),
+                    };
+                    width = width
+                        .zip(element_width)
+                        .and_then(|(width, element_width)| width.checked_add(element_width));
                 }
-                Some(Type::Bits(bits.value_list()?.values().count()))
+                Some(width.map_or(Type::Unknown, Type::Bits))
             }
             ast::SimpleValue::List(list) => {
                 // index every element (a lazy iterator would stop after the first one)
